@@ -8,3 +8,30 @@ Theorem gen_categorise_num_executions : forall lo me hi c, GenObs.categorise_num
 Proof. reflexivity. Qed.
 Theorem gen_categorise_num_access : forall lo me hi c, GenObs.categorise_num_access hi me lo c = categorise lo me hi c.
 Proof. reflexivity. Qed.
+
+(* ---- transfer: the model's theorems, stated about the functions translated from the current source -------------------- *)
+From Coq Require Import Lia.
+From PV Require Import Proofs.ObsProofs.
+
+(* whatever the thresholds and the count, each translated encoder returns a member of Discrete(4), is monotone in the count
+   and has exactly the documented edges when the thresholds are ordered *)
+Theorem source_threshold_bins_in_Discrete4 : forall lo me hi c,
+  0 <= GenObs.categorise_mne_count hi me lo c < 4 /\ 0 <= GenObs.categorise_num_executions hi me lo c < 4 /\
+  0 <= GenObs.categorise_num_access hi me lo c < 4.
+Proof.
+  intros lo me hi c. rewrite gen_categorise_mne_count, gen_categorise_num_executions, gen_categorise_num_access.
+  pose proof (categorise_in_Discrete4 lo me hi c). auto.
+Qed.
+Theorem source_threshold_bins_edges : forall lo me hi c, lo <= me <= hi ->
+  (GenObs.categorise_mne_count hi me lo c = 0 <-> c <= lo) /\ (GenObs.categorise_mne_count hi me lo c = 1 <-> lo < c <= me) /\
+  (GenObs.categorise_mne_count hi me lo c = 2 <-> me < c <= hi) /\ (GenObs.categorise_mne_count hi me lo c = 3 <-> hi < c).
+Proof. intros lo me hi c H. rewrite gen_categorise_mne_count. exact (categorise_edges lo me hi c H). Qed.
+Theorem source_threshold_bins_monotone : forall lo me hi c c', lo <= me <= hi -> c <= c' ->
+  GenObs.categorise_num_executions hi me lo c <= GenObs.categorise_num_executions hi me lo c' /\
+  GenObs.categorise_num_access hi me lo c <= GenObs.categorise_num_access hi me lo c'.
+Proof.
+  intros lo me hi c c' H Hc.
+  rewrite (gen_categorise_num_executions lo me hi c), (gen_categorise_num_executions lo me hi c'),
+          (gen_categorise_num_access lo me hi c), (gen_categorise_num_access lo me hi c').
+  pose proof (categorise_monotone lo me hi c c' H Hc). auto.
+Qed.
